@@ -242,6 +242,23 @@ def _apply_at_block(U, F, hyps):
 def run_obligations(chk, obs, rule_default='fold', jobs=16, missing_is_violation=True):
     """evaluate all obligations; records into chk"""
     tasks = []
+    if getattr(chk, 'tier', 'quick') == 'thorough':
+        # thorough tier: every obligation is also decided on the 32-bit configuration (the code paths an ESP8266 build takes:
+        # BR_64=0, no 128-bit multiplications, BR_LOMUL, no x86 intrinsics) whenever the function is compiled there
+        import copy
+        extra = []
+        for ob in obs:
+            if ob.config != 'host':
+                continue
+            try:
+                U2 = funit(ob.src, 'c32')
+            except AnalysisBroken:
+                continue
+            if ob.func in U2.funcs:
+                o2 = copy.copy(ob)
+                o2.config = 'c32'
+                extra.append(o2)
+        obs = list(obs) + extra
     for ob in obs:
         U = funit(ob.src, ob.config)
         if ob.func not in U.funcs:
@@ -301,7 +318,7 @@ def run_obligations(chk, obs, rule_default='fold', jobs=16, missing_is_violation
         ob, U, F, rule, name, ss = t
         if err is not None:
             raise err
-        inst = '%s: %s %s => %s' % (ob.func, name, _hs(ob.hyp), getattr(ob.expect, 'desc', '?'))
+        inst = '%s%s: %s %s => %s' % (ob.func, '' if ob.config == 'host' else ' [%s]' % ob.config, name, _hs(ob.hyp), getattr(ob.expect, 'desc', '?'))
         line = ss[0].get('line') if isinstance(ss[0], dict) and 'line' in ss[0] else (ss[0].get('inst') or {}).get('line')
         where = '%s:%s' % (ob.src, line if line is not None else F.f.get('line'))
         if ncres is not None and ncres[0]:
@@ -312,7 +329,7 @@ def run_obligations(chk, obs, rule_default='fold', jobs=16, missing_is_violation
         else:
             chk.violation(rule, inst, where, 'under hypothesis %s the expectation "%s" does not fold: %s. %s'
                           % (_hs(ob.hyp), getattr(ob.expect, 'desc', '?'), det, ob.reason),
-                          key='%s %s %s %s' % (rule, ob.func, name, _hs(ob.hyp)))
+                          key='%s %s%s %s %s' % (rule, ob.func, '' if ob.config == 'host' else '[%s]' % ob.config, name, _hs(ob.hyp)))
 
 
 def _place(U, F, h):
